@@ -149,7 +149,7 @@ pub fn pool(rng: &mut Rng) -> Vec<Call> {
     }
     // calls that FAIL belong to the pool as well: state abandoned on an error path is the likeliest leak
     {
-        let long = crate::gen::valid::name_of_wire_len(rng, 240);
+        let long = crate::gen::valid::name_of_wire_len(rng, 253);
         let mut m = Msg { id: rng.u16(), flags: 0x8180, ..Default::default() };
         m.question.push(Question { name: Name(vec![b"www".to_vec()]).concat(&zone), qtype: 1, qclass: 1 });
         m.sec[0].push(Record { name: Name(vec![b"a".to_vec()]).concat(&zone), rtype: T_A, class: 1, ttl: 1, rdata: RData::A([1, 1, 1, 1]) });
